@@ -340,10 +340,10 @@ func (w *Writer) Close() error {
 		return err
 	}
 	if *w.EnableAutoCommit && w.AutoIndexPersistInterval > 0 {
+		// the lock is kept while writing, see index.insert
 		w.idx.mu.RLock()
-		persistPointers := w.idx.indexPersist.prepare(w.idx.persistHead)
-		w.idx.mu.RUnlock()
-		return persistPointers()
+		defer w.idx.mu.RUnlock()
+		return w.idx.indexPersist.prepare(w.idx.persistHead)()
 	}
 	return nil
 }
